@@ -21,9 +21,9 @@ MANIFEST = {
             "expressions and calc_duration end-time expressions are re-read from the source on every run — returns the empty "
             "report iff the declarative predicate TimingValid (written from the property text) holds, and an entry "
             "(block, event, field, kind) is reported iff that clause is violated, exactly once (soundness, completeness, NoDup); "
-            "div_check accepts t iff t lies within 1e-6 raster of an integer multiple; ok implies the write-time assertion "
+            "div_check accepts t iff t lies within 1e-6 raster of an integer multiple; the RF clause in the property-text reading (delay + shape duration + ring-down fits) is equivalent for every block as get_block decodes it (decoded-RF invariant t[-1] <= shape_dur + eps proved from the model of rf_from_lib_data); ok implies the write-time assertion "
             "when the stored duration covers the content (sub-eps counterexample stated as _refuted, reproduced on the implementation as known finding C10/ok-but-write-raises; the theorems are parameterised by which duration the source tests against the block raster, so they also hold, unconditionally, for the repaired source). The extracted model is "
-            "run against Sequence.check_timing() on ~1300 (quick) random valid and single/multi-fault sequences over 5 "
+            "run against Sequence.check_timing() on ~1300 (quick) random valid and single/multi-fault sequences over 8 "
             "raster families; an independent exact-Fraction oracle must equal the reported multiset; ok sequences are "
             "written under warnings capture.",
     'note': 'Trusted: Coq kernel; translator patterns for check_timing.py/calc_duration.py/block.py; extraction '
@@ -37,13 +37,14 @@ BUDGET = {'quick': 75, 'thorough': 1500}
 ESCALATE_BUDGET = 150
 SEARCH_BUDGET = 120
 MISMATCH_BUDGET = 0.0
-RULE = ('sequences of 1-8 blocks on systems drawn from 5 raster families (Siemens 10/1/10/0.1 us, GE 4/2/4/2, 20 us gradients, '
-        '6.4 us, fine 0.5 us rf) with random RF dead/ring-down and ADC dead times; blocks mix block/sinc RF, trapezoids '
+RULE = ('sequences of 1-10 blocks on systems drawn from 8 raster families (Siemens 10/1/10/0.1 us, GE 4/2/4/2, 20 us gradients, '
+        '6.4 us, fine 0.5 us rf, and three with all four rasters pairwise different: block 10 / grad 5, block 10 / grad 20 / rf 0.5 / '
+        'adc 0.025, block 20 / grad 10) with random RF dead/ring-down and ADC dead times; blocks mix block/sinc RF, trapezoids '
         '(incl. flat 0), extended trapezoids (also with tt[0] > 0), arbitrary gradients, ADCs, triggers, labels and padding '
         'delays, all raster-aligned (stream valid: report must be empty, write() must not warn). Fault streams overwrite one or '
         '2-4 timing fields: +0.5 / +0.3 / +2e-4 / +1e-5 raster (must be reported), +1e-9 raster (must not), ADC delay on the '
         'ADC but not the RF raster, negative delays, delays below the dead time, events built for a system with shorter dead '
-        'times / ring-down, stored block duration cut, extended or moved off the block raster. Oracle: TimingValid/Violates '
+        'times / ring-down, stored block duration cut, extended or moved off the block raster, a field or the block duration moved by one step of ANOTHER raster of the system, repeated blocks (same events, other padding, valid or off raster), seconds-long delays (1e5-3e6 block rasters) with tiny offsets. Oracle: TimingValid/Violates '
         'recomputed with exact Fractions from the decoded blocks must equal the multiset of (block,event,field,kind) returned '
         'by seq.check_timing(); every injected fault must appear. Correspondence: the extracted Coq model must return the same '
         'ordered report and the same calc_duration per block. non-trivial = at least one error reported or >= 3 event kinds')
